@@ -453,3 +453,315 @@ Example C01_replay_damaged_record_leaves_partial_batch :
   | _ => False
   end.
 Proof. vm_compute. repeat split. Qed.
+
+(* (7) The WRITE side of the LSM tree at BYTE level (Lsm/WritePath.v): the steps that change the byte state of (5) — memdbs as
+   C14 model states, table FILES as bytes — composed from the existing models, nothing re-modelled:
+     b_write        Batch.putMem into the live memdb                                        (Codec/Batch.v, (6))
+     b_rotate       newMem: the live memdb becomes the frozen one, fresh live memdb          (Mem/MemDB.v mdb_new)
+     b_flush        memCompaction/flushMemdb: the frozen memdb drained through its ITERATOR (Mem/MemDB.v it_next) into the
+                    model table WRITER (Codec/Table.v tw_append/tw_close, property C13) with the session's options and the DB's
+                    iComparer (Separator/Successor: Codec/IKey.v isep/isucc, property C15); recorded imin/imax = first/last key
+                    (tWriter.first/last); installed at pickMemdbLevel (Lsm/Pick.v) by versionStaging.finish; frozen memdb dropped
+     b_compact      tableCompaction: inputs chosen by the Lsm/Pick.v model from any seed at any level, merged iteration over the
+                    decoded entries of the input FILES, tableCompactionBuilder (Lsm/Builder.v transact, any failure history) with
+                    BytesLen = the model writer's offset, every output chunk written by the model writer, finish
+     b_trivial_move tableCompaction's move branch
+     b_txn_commit   a committed transaction (also DB.Write of an oversized batch): its memdb flushed into one table that a
+                    record committed with trivial = false adds at level 0; enabled only with flushed DB memdbs (OpenTransaction)
+   The invariant [bfull] = wf_bstate (5) + the step invariant WfLsm.wf_lsm of property C06 on the abstraction + no two stored
+   entries with the same (user key, sequence number).
+   Hypotheses stated explicitly everywhere: comparer_ok, the generated constants' side conditions, the codec contract of
+   property C13 (decompress (compress x) = Some x, compress x <> [] — needed by C13's writer theorem also for NoCompression, where
+   the codec is never called), BlockRestartInterval >= 1, per written table the computable size condition write_sizes_ok
+   (C13's table_sizes_ok and the file below 2^32 bytes), fresh file numbers, sequence numbers below keyMaxSeq, and for a
+   configured filter policy the no-false-negative condition of property C16 on each written file ([table_filter_ok]: a
+   boolean on the file, evaluated by the correspondence run on every table of every dumped state; with no policy —
+   goleveldb's default — it holds outright; it is NOT proved for the model's bloom filter writer). *)
+From GL Require Import Base.Cursor Codec.TableSizes Lsm.Pick Lsm.WfLsm Lsm.C06Steps Lsm.Builder Lsm.BuilderCuts Lsm.WritePath
+  Lsm.WritePathTable Lsm.WritePathSteps Lsm.WritePathTheorems Lsm.WritePathTxn Lsm.WritePathHistory.
+
+(* (7a) "The table writer produces files that pass tfile_okb", for the MODEL writer: for every strictly increasing non-empty list
+   of stored internal keys (decodable, kind value or deletion), either compression setting, the file table_bytes returns
+   passes the byte-level format check of the read path with recorded bounds = first and last key, and Codec/TableCheck.v
+   table_check decodes it to exactly the pairs written. *)
+Theorem C01_writer_output_ok :
+  forall c, comparer_ok c -> forall p, kparams_ok p -> forall tp, tparams_ok tp ->
+  forall crc, (forall b, (crc b < 2 ^ 32)%N) ->
+  forall compress decompress, (forall x, decompress (compress x) = Some x) -> (forall x, compress x <> []) ->
+  forall fname ufc verify o, (1 <= wo_ri o)%N -> forall num kvs data,
+  Cursor.sorted (ibc c) kvs -> kvs <> [] -> Forall (fun kv => key_okb p (fst kv) = true) kvs ->
+  table_bytes c p tp crc compress o kvs = Some data -> write_sizes_ok c p tp crc compress o kvs = true ->
+  (wo_filter o = None \/
+   filter_part c tp crc decompress fname ufc verify (mkTF num (key_first kvs) (key_last kvs) data) = true) ->
+  tfile_okb c p tp crc decompress fname ufc verify (wo_ri o) (mkTF num (key_first kvs) (key_last kvs) data) = true /\
+  tf_pairs c tp crc decompress fname ufc verify (wo_ri o) (mkTF num (key_first kvs) (key_last kvs) data) = kvs /\
+  table_check (ibc c) (tf_reader c tp crc decompress fname ufc verify (mkTF num (key_first kvs) (key_last kvs) data)) (wo_ri o) = Some kvs.
+Proof. exact writer_output_ok. Qed.
+Print Assumptions C01_writer_output_ok.
+
+(* ... the memdb iterator feeds the writer exactly the pairs the read path's abstraction reads (C14's iterator refinement) *)
+Theorem C01_memdb_iterator_yields_pairs :
+  forall c, comparer_ok c -> forall p, (keyTypeSeek p <= keyTypeVal p)%N -> forall mp, MemDB.mparams_ok mp ->
+  forall d, mem_ok c p mp d -> mem_iter_all c mp d = Some (mem_pairs mp d).
+Proof. exact WritePathMem.mem_iter_pairs. Qed.
+Print Assumptions C01_memdb_iterator_yields_pairs.
+
+(* (7b) Rotation. *)
+Theorem C01_rotate_step_bytes :
+  forall c, comparer_ok c -> forall p, kparams_ok p -> (keyTypeSeek p <= keyTypeVal p)%N ->
+  forall mp, MemDB.mparams_ok mp -> forall tp crc decompress fname ufc verify o, (1 <= wo_ri o)%N ->
+  forall st d, bfull c p mp tp crc decompress fname ufc verify o st -> bs_mem st = Some d -> bs_frozen st = None ->
+  let A := abs c mp tp crc decompress fname ufc verify (wo_ri o) in
+  exists st', b_rotate mp st = Some st' /\ bfull c p mp tp crc decompress fname ufc verify o st' /\
+    st_mem (A st') = [] /\ st_frozen (A st') = st_mem (A st) /\ st_levels (A st') = st_levels (A st) /\
+    all_entries (A st') = all_entries (A st) /\
+    forall k s, wf_bytes k -> (s <= keyMaxSeq p)%N ->
+      db_get_bytes c p mp tp crc decompress fname ufc verify st' k s = db_get_bytes c p mp tp crc decompress fname ufc verify st k s.
+Proof. exact rotate_bytes. Qed.
+Print Assumptions C01_rotate_step_bytes.
+
+(* (7c) Flush: wf_bstate (inside bfull) is preserved; the abstraction of the new state is the L1 flush step of the old one — the
+   frozen memdb's entries are now the table the model writer wrote, installed by finish at the level pickMemdbLevel chooses —
+   the stored entries are the same, and every read at every sequence number returns what it returned before. *)
+Theorem C01_flush_step_bytes :
+  forall c, comparer_ok c -> forall p, kparams_ok p -> (keyTypeSeek p <= keyTypeVal p)%N ->
+  forall mp, MemDB.mparams_ok mp -> forall tp, tparams_ok tp -> forall crc, (forall b, (crc b < 2 ^ 32)%N) ->
+  forall compress decompress, (forall x, decompress (compress x) = Some x) -> (forall x, compress x <> []) ->
+  forall fname ufc verify o, (1 <= wo_ri o)%N ->
+  forall st d num, bfull c p mp tp crc decompress fname ufc verify o st -> bs_frozen st = Some d ->
+  let A := abs c mp tp crc decompress fname ufc verify (wo_ri o) in
+  (forall f, In f (files_of st) -> tf_num f <> num) ->
+  (forall x, In x (all_entries (A st)) -> (e_seq x <= keyMaxSeq p)%N) ->
+  (mem_pairs mp d <> [] -> write_sizes_ok c p tp crc compress o (mem_pairs mp d) = true) ->
+  table_filter_ok c p tp crc compress decompress fname ufc verify o (mem_pairs mp d) ->
+  exists st', b_flush c p mp tp crc compress decompress fname ufc verify o num st = Some st' /\
+    bfull c p mp tp crc decompress fname ufc verify o st' /\
+    st_mem (A st') = st_mem (A st) /\ st_frozen (A st') = [] /\
+    (mem_pairs mp d = [] -> st_levels (A st') = st_levels (A st)) /\
+    (mem_pairs mp d <> [] ->
+       finish c true (st_levels (A st))
+              (flush_edit c p (file_size (files_of st)) (st_levels (A st)) (wo_gpOverlaps o) (wo_memMaxLevel o)
+                          {| t_num := num; t_entries := st_frozen (A st) |}) = POk (st_levels (A st')) /\
+       exists f, write_table c p tp crc compress o num (mem_pairs mp d) = Some f /\
+                 tfile_okb c p tp crc decompress fname ufc verify (wo_ri o) f = true /\
+                 abs_table c tp crc decompress fname ufc verify (wo_ri o) f = {| t_num := num; t_entries := st_frozen (A st) |} /\
+                 In f (files_of st')) /\
+    same_elems (all_entries (A st)) (all_entries (A st')) /\
+    forall k s, wf_bytes k -> (s <= keyMaxSeq p)%N ->
+      db_get_bytes c p mp tp crc decompress fname ufc verify st' k s = db_get_bytes c p mp tp crc decompress fname ufc verify st k s.
+Proof. exact flush_bytes. Qed.
+Print Assumptions C01_flush_step_bytes.
+
+(* (7d) Trivial move. *)
+Theorem C01_trivial_move_step_bytes :
+  forall c, comparer_ok c -> forall p, kparams_ok p -> (keyTypeSeek p <= keyTypeVal p)%N ->
+  forall mp, MemDB.mparams_ok mp -> forall tp crc decompress fname ufc verify o, (1 <= wo_ri o)%N ->
+  forall st lvl seed, bfull c p mp tp crc decompress fname ufc verify o st ->
+  let A := abs c mp tp crc decompress fname ufc verify (wo_ri o) in
+  seed_tables (st_levels (A st)) lvl seed <> [] ->
+  exists cm, new_compaction c (file_size (files_of st)) (st_levels (A st)) lvl (wo_expandLimit o lvl)
+                            (seed_tables (st_levels (A st)) lvl seed) = POk cm /\
+    (trivial (file_size (files_of st)) cm (wo_gpOverlaps o lvl) = true ->
+     exists st', b_trivial_move c tp crc decompress fname ufc verify o lvl seed st = Some st' /\
+       bfull c p mp tp crc decompress fname ufc verify o st' /\
+       st_mem (A st') = st_mem (A st) /\ st_frozen (A st') = st_frozen (A st) /\
+       finish c true (st_levels (A st)) (move_edit cm) = POk (st_levels (A st')) /\
+       same_elems (all_entries (A st)) (all_entries (A st')) /\
+       forall k s, wf_bytes k -> (s <= keyMaxSeq p)%N ->
+         db_get_bytes c p mp tp crc decompress fname ufc verify st' k s = db_get_bytes c p mp tp crc decompress fname ufc verify st k s).
+Proof. exact move_bytes. Qed.
+Print Assumptions C01_trivial_move_step_bytes.
+
+(* (7e) Table compaction, for every level, every seed the picker might choose, every failure history [os] of compactionTransact
+   that ends normally, with the drop rule at minSeq: wf_bstate preserved; the abstraction of the new state is the L1
+   compaction step (finish of compaction_edit with the builder's tables, which are outputs in the sense of property C06:
+   cuts only between different user keys, concatenation = the kept merged entries); nothing new is stored; every read at every
+   sequence number >= minSeq — that is, at db.seq and at every live snapshot when minSeq = db.minSeq() — returns the value it
+   returned before. *)
+Theorem C01_compaction_step_bytes :
+  forall c, comparer_ok c -> forall p, kparams_ok p -> (keyTypeSeek p <= keyTypeVal p)%N ->
+  forall mp, MemDB.mparams_ok mp -> forall tp, tparams_ok tp -> forall crc, (forall b, (crc b < 2 ^ 32)%N) ->
+  forall compress decompress, (forall x, decompress (compress x) = Some x) -> (forall x, compress x <> []) ->
+  forall fname ufc verify o, (1 <= wo_ri o)%N ->
+  forall st lvl seed os nums minSeq, bfull c p mp tp crc decompress fname ufc verify o st ->
+  let A := abs c mp tp crc decompress fname ufc verify (wo_ri o) in
+  seed_tables (st_levels (A st)) lvl seed <> [] -> (minSeq < keyMaxSeq p)%N ->
+  NoDup nums -> (forall n f, In n nums -> In f (files_of st) -> tf_num f <> n) ->
+  exists cm, new_compaction c (file_size (files_of st)) (st_levels (A st)) lvl (wo_expandLimit o lvl)
+                            (seed_tables (st_levels (A st)) lvl seed) = POk cm /\
+    forall s',
+      let deeper := skipn (lvl + 2) (st_levels (A st)) in
+      transact c p (file_size (files_of st)) (c_gp cm) (wo_gpOverlaps o lvl) deeper minSeq (wo_strict o) (wo_tableSize o (S lvl))
+               (bytes_len c p tp crc compress o) os (map IGood (merge_inputs c (c_t0 cm ++ c_t1 cm))) (bst0 deeper) = (s', TDone) ->
+      length nums = length (fin s') ->
+      Forall (fun ch => write_sizes_ok c p tp crc compress o (chunk_kvs ch) = true /\
+                        table_filter_ok c p tp crc compress decompress fname ufc verify o (chunk_kvs ch)) (fin s') ->
+      exists st', b_compact c p tp crc compress decompress fname ufc verify o lvl seed os nums minSeq st = Some st' /\
+        bfull c p mp tp crc decompress fname ufc verify o st' /\
+        st_mem (A st') = st_mem (A st) /\ st_frozen (A st') = st_frozen (A st) /\
+        outputs_of c p cm minSeq deeper (fin s') /\
+        finish c true (st_levels (A st)) (compaction_edit cm (mk_outputs nums (fin s'))) = POk (st_levels (A st')) /\
+        (forall x, In x (all_entries (A st')) -> In x (all_entries (A st))) /\
+        forall k s, wf_bytes k -> (minSeq <= s)%N -> (s <= keyMaxSeq p)%N ->
+          bapi (db_get_bytes c p mp tp crc decompress fname ufc verify st' k s) =
+          bapi (db_get_bytes c p mp tp crc decompress fname ufc verify st k s).
+Proof. exact compact_bytes. Qed.
+Print Assumptions C01_compaction_step_bytes.
+
+(* (7e') A committed transaction.  L1 part (the case property C06 left to the correspondence check): installing ONE level-0
+   table that is well-formed, under an unused number and newer than every stored entry of its user keys, by a record
+   committed with trivial = false, keeps the step invariant; level 0 is a permutation of the old level 0 plus the table. *)
+Theorem C01_txn_install_step : forall c p v t, wf_lsm c p v -> PickBase.tbl_ok c p t -> uniq (t_entries t) ->
+  (forall i x y, In x (t_entries t) -> In y (LE (lv v i)) -> e_uk x = e_uk y -> (e_seq y < e_seq x)%N) ->
+  (forall i s, In s (lv v i) -> t_num s <> t_num t) ->
+  exists nv, finish c false v (txn_edit t) = POk nv /\ wf_lsm c p nv /\
+    Permutation.Permutation (lv nv 0) (t :: lv v 0) /\ forall l, (0 < l)%nat -> lv nv l = lv v l.
+Proof. exact txn_install. Qed.
+Print Assumptions C01_txn_install_step.
+
+(* ... and the byte-level step: bfull kept, the stored entries are the old ones plus exactly the stamped records. *)
+Theorem C01_txn_step_bytes :
+  forall c, comparer_ok c -> forall p, kparams_ok p -> (keyTypeSeek p <= keyTypeVal p)%N ->
+  forall mp, MemDB.mparams_ok mp -> forall tp, tparams_ok tp -> forall crc, (forall b, (crc b < 2 ^ 32)%N) ->
+  forall compress decompress, (forall x, decompress (compress x) = Some x) -> (forall x, compress x <> []) ->
+  forall fname ufc verify o, (1 <= wo_ri o)%N ->
+  forall st recs hs num seq, bfull c p mp tp crc decompress fname ufc verify o st ->
+  let A := abs c mp tp crc decompress fname ufc verify (wo_ri o) in
+  bs_frozen st = None -> mem_is_empty c mp (bs_mem st) = true ->
+  (forall x, In x (all_entries (A st)) -> (e_seq x <= seq)%N) ->
+  Forall (rec_wf p) recs -> (seq + N.of_nat (length recs) <= keyMaxSeq p)%N -> heights_okl mp hs ->
+  (lenN (enc_recs p recs) < 2 ^ 63)%N ->
+  (forall f, In f (files_of st) -> tf_num f <> num) ->
+  (forall d0 d' hs', MemDB.mdb_new mp = MemDB.Ok d0 ->
+     batch_putmem p (ibc c) mp (batch_of p recs) (seq + 1) d0 hs = PmOk d' hs' -> mem_pairs mp d' <> [] ->
+     write_sizes_ok c p tp crc compress o (mem_pairs mp d') = true /\
+     table_filter_ok c p tp crc compress decompress fname ufc verify o (mem_pairs mp d')) ->
+  exists st', b_txn_commit c p mp tp crc compress decompress fname ufc verify o recs hs num seq st = Some st' /\
+    bfull c p mp tp crc decompress fname ufc verify o st' /\ bs_mem st' = bs_mem st /\ bs_frozen st' = None /\
+    same_elems (all_entries (A st) ++ stamp seq (map (norm_rec p) recs)) (all_entries (A st')).
+Proof. exact txn_step. Qed.
+Print Assumptions C01_txn_step_bytes.
+
+Theorem C01_bfull_is_wf_bstate :
+  forall c p mp tp crc decompress fname ufc verify o st, bfull c p mp tp crc decompress fname ufc verify o st ->
+  wf_bstate c p mp tp crc decompress fname ufc verify (wo_ri o) st.
+Proof. exact bfull_wf. Qed.
+Print Assumptions C01_bfull_is_wf_bstate.
+
+(* (7f) THE CAPSTONE.  For every finite sequence of byte-level steps from the empty DB — writes of batches, rotations, flushes,
+   table compactions with any picker choice / seed / failure history, trivial moves, committed transactions, snapshot
+   acquisitions and releases —
+   that the model executes (brun = Some: each step is enabled, e.g. a flush has a frozen memdb to flush) and whose side
+   conditions hold (bops_ok: records well-formed, db.seq stays below keyMaxSeq, heights as randHeight draws them, fresh file
+   numbers, the size condition and — when a filter policy is configured — the filter condition of every table written), the
+   byte state is well-formed and DB.Get computed on the BYTES at
+   db.seq returns, for every key, what the plain map driven by the written batches returns; and a read at the sequence
+   number of a snapshot that is still live returns what the plain map returned at the instant the snapshot was taken. *)
+Theorem C01_history_bytes :
+  forall c, comparer_ok c -> forall p, kparams_ok p -> (keyTypeSeek p <= keyTypeVal p)%N ->
+  forall mp, MemDB.mparams_ok mp -> forall tp, tparams_ok tp -> forall crc, (forall b, (crc b < 2 ^ 32)%N) ->
+  forall compress decompress, (forall x, decompress (compress x) = Some x) -> (forall x, compress x <> []) ->
+  forall fname ufc verify o, (1 <= wo_ri o)%N ->
+  forall ops w0 w, w_init mp = Some w0 ->
+  brun c p mp tp crc compress decompress fname ufc verify o w0 ops = Some w ->
+  bops_ok c p mp tp crc compress decompress fname ufc verify o w0 ops ->
+  wf_bstate c p mp tp crc decompress fname ufc verify (wo_ri o) (ws_bs w) /\
+  (forall k, wf_bytes k ->
+     bapi (db_get_bytes c p mp tp crc decompress fname ufc verify (ws_bs w) k (ws_seq w)) = Some (a_get c k (wmap c p ops))) /\
+  (forall ops1 ops2 w1 k, ops = ops1 ++ ops2 ->
+     brun c p mp tp crc compress decompress fname ufc verify o w0 ops1 = Some w1 -> In (ws_seq w1) (ws_snaps w) -> wf_bytes k ->
+     bapi (db_get_bytes c p mp tp crc decompress fname ufc verify (ws_bs w) k (ws_seq w1)) = Some (a_get c k (wmap c p ops1))).
+Proof. exact history_bytes. Qed.
+Print Assumptions C01_history_bytes.
+
+(* Non-vacuity of (7): a codec that satisfies the contract, options with NoCompression and no filter policy (block size 16,
+   restart interval 2, table size 30 so that the compaction cuts), and a run of ten steps from the empty DB — a batch of three
+   Puts, rotation, flush to file 5, a Delete and a Put, a snapshot (at 5), a Put, rotation, flush to file 6, a level-0 table
+   compaction of files 6 and 5 whose builder writes two tables (7 and 8, minSeq = 5 because of the snapshot), a Put, rotation,
+   flush to file 9, a committed transaction (a Put and a Delete, table 10 at level 0) — that the
+   model executes, that meets every side condition (bops_ok), and whose reads, evaluated, are the plain map's: at db.seq = 9
+   a = the last Put, b deleted, c overwritten, d deleted by the transaction, f put by it; at the snapshot c still has its
+   first value and a is absent.  The second
+   example: the same writer with compression ON (the tag codec) writes a file for which the size condition evaluates to
+   true and which passes tfile_okb. *)
+From GL Require Import Lsm.BatchWriteProofs.
+Definition wx_compress (x : bytes) : bytes := 7 :: x.
+Definition wx_decompress (y : bytes) : option bytes := match y with 7 :: x => Some x | _ => None end.
+Definition wx_o : wopts := mkWO 16 2 false None (fun _ => 30) (fun _ => 1000) (fun _ => 1000) 0 true.
+Definition wx_ops : list bop :=
+  [ BWrite [(1, [98], [1]); (1, [99], [2]); (1, [100], [3])] [1; 2; 1];
+    BRotate; BFlush 5;
+    BWrite [(0, [98], []); (1, [101], [4])] [1; 1];
+    BSnap;
+    BWrite [(1, [99], [9])] [2];
+    BRotate; BFlush 6;
+    BCompact 0 [6; 5] [o_ok] [7; 8];
+    BWrite [(1, [97], [5])] [1];
+    BRotate; BFlush 9;
+    BTxn [(1, [102], [7]); (0, [100], [])] [1; 1] 10 ].
+Local Notation wx_run := (brun bytewise kp mp tblp tbl_crc wx_compress wx_decompress None (fun _ _ _ => true) true wx_o).
+Local Notation wx_step := (bstep bytewise kp mp tblp tbl_crc wx_compress wx_decompress None (fun _ _ _ => true) true wx_o).
+Local Notation wx_get w k s := (bapi (db_get_bytes bytewise kp mp tblp tbl_crc wx_decompress None (fun _ _ _ => true) true (ws_bs w) [k] s)).
+
+Ltac wx_next :=
+  match goal with
+  | |- match ?s with _ => _ end => let r := eval vm_compute in s in replace s with r by (vm_compute; reflexivity); cbv iota
+  end.
+Ltac wx_in H := repeat (destruct H as [<-|H]; [vm_compute; try discriminate; try reflexivity|]); try destruct H.
+Ltac wx_recs := repeat (apply Forall_cons; [split; [vm_compute; auto | repeat (apply Forall_cons; [vm_compute; reflexivity|]); apply Forall_nil]|]); apply Forall_nil.
+Ltac wx_heights := repeat (apply Forall_cons; [split; vm_compute; discriminate|]); apply Forall_nil.
+Ltac wx_write := split; [wx_recs|split; [vm_compute; reflexivity|split; [wx_heights|vm_compute; reflexivity]]].
+Ltac wx_flush := split; [intros f Hf; vm_compute in Hf; wx_in Hf|split; [intros d Hd _; vm_compute in Hd; injection Hd as <-; vm_compute; reflexivity|intros d Hd; left; reflexivity]].
+
+Example C01_write_path_nonvacuous :
+  (forall x, wx_decompress (wx_compress x) = Some x) /\ (forall x, wx_compress x <> []) /\ (1 <= wo_ri wx_o)%N /\
+  exists w0 w, w_init mp = Some w0 /\ wx_run w0 wx_ops = Some w /\
+    bops_ok bytewise kp mp tblp tbl_crc wx_compress wx_decompress None (fun _ _ _ => true) true wx_o w0 wx_ops /\
+    ws_seq w = 9 /\ ws_snaps w = [5] /\
+    map (map (fun f => tf_num f)) (bs_levels (ws_bs w)) = [[10; 9]; [7; 8]] /\
+    map (fun k => wx_get w k 9) [97; 98; 99; 100; 101; 102] =
+      [Some (Some [5]); Some None; Some (Some [9]); Some None; Some (Some [4]); Some (Some [7])] /\
+    map (fun k => wx_get w k 5) [97; 98; 99; 100; 101; 102] =
+      [Some None; Some None; Some (Some [2]); Some (Some [3]); Some (Some [4]); Some None].
+Proof.
+  split; [reflexivity|]. split; [discriminate|]. split; [vm_compute; discriminate|].
+  destruct (w_init mp) as [w0|] eqn:E0; [|vm_compute in E0; discriminate].
+  vm_compute in E0. injection E0 as <-.
+  eexists. eexists. split; [reflexivity|]. split; [vm_compute; reflexivity|].
+  split.
+  - cbn [bops_ok wx_ops].
+    split; [wx_write|wx_next].
+    split; [exact I|wx_next].
+    split; [wx_flush|wx_next].
+    split; [wx_write|wx_next].
+    split; [exact I|wx_next].
+    split; [wx_write|wx_next].
+    split; [exact I|wx_next].
+    split; [wx_flush|wx_next].
+    split; [|wx_next].
+    { split; [apply NoDup_cons; [intros [H|[]]; discriminate|apply NoDup_cons; [intros []|apply NoDup_nil]]|].
+      split.
+      - intros n f Hn Hf. vm_compute in Hf. destruct Hn as [<-|[<-|[]]]; wx_in Hf.
+      - intros cm s' H1 H2. vm_compute in H1. injection H1 as <-. vm_compute in H2. injection H2 as <-.
+        match goal with |- Forall _ ?l => let r := eval vm_compute in l in replace l with r by (vm_compute; reflexivity) end.
+        repeat (apply Forall_cons; [split; [vm_compute; reflexivity|left; reflexivity]|]). apply Forall_nil. }
+    split; [wx_write|wx_next].
+    split; [exact I|wx_next].
+    split; [wx_flush|wx_next].
+    split; [|wx_next; exact I].
+    split; [wx_recs|]. split; [vm_compute; reflexivity|]. split; [wx_heights|]. split; [vm_compute; reflexivity|].
+    split; [intros f Hf; vm_compute in Hf; wx_in Hf|].
+    intros d0 d' hs' H1 H2 _. vm_compute in H1. injection H1 as <-. vm_compute in H2. injection H2 as <- _.
+    split; [vm_compute; reflexivity|left; reflexivity].
+  - vm_compute. repeat split; reflexivity.
+Qed.
+
+Example C01_writer_snappy_nonvacuous :
+  let o := mkWO 16 2 true None (fun _ => 30) (fun _ => 1000) (fun _ => 1000) 0 true in
+  let kvs := [([98; 1; 1; 0; 0; 0; 0; 0; 0], [1]); ([99; 1; 2; 0; 0; 0; 0; 0; 0], [2]); ([100; 0; 3; 0; 0; 0; 0; 0; 0], [])]%N in
+  write_sizes_ok bytewise kp tblp tbl_crc wx_compress o kvs = true /\
+  match table_bytes bytewise kp tblp tbl_crc wx_compress o kvs with
+  | Some data => tfile_okb bytewise kp tblp tbl_crc wx_decompress None (fun _ _ _ => true) true 2 (mkTF 9 (key_first kvs) (key_last kvs) data) = true
+  | None => False
+  end.
+Proof. vm_compute. split; reflexivity. Qed.
